@@ -341,6 +341,27 @@ def _manifest(view, m, assertions=None, kid_order=None):
     return _sup(kids)
 
 
+def unsigned_twins(view, a):
+    """copies of assertion superbox a with one payload byte changed so that the box still parses: a letter inside a
+    run of letters (text strings of CBOR/JSON payloads), or any byte of a binary data box"""
+    raw = bytearray(_raw(view, a))
+    out = []
+    for k in a.kids[1:]:
+        lo, hi = k.start + k.hdr - a.start, k.end - a.start
+        if k.typ == b"bidb":
+            cand = [lo + (hi - lo) // 2]
+        elif k.typ in (b"cbor", b"json"):
+            cand = [i for i in range(lo + 2, hi - 2) if all(97 <= raw[j] <= 122 for j in (i - 2, i - 1, i, i + 1, i + 2))]
+            cand = cand[::max(1, len(cand) // 3)][:3]
+        else:
+            cand = []
+        for i in cand:
+            t = bytearray(raw)
+            t[i] = 122 if t[i] != 122 else 121
+            out.append(bytes(t))
+    return out[:3]
+
+
 def structure_edits(view):
     """JUMBF-level edits: (name, new store bytes)"""
     desc = _raw(view, view.top.kids[0])
@@ -357,6 +378,15 @@ def structure_edits(view):
     for i in range(len(ab)):
         out.append((f"dup_assertion_{i}", store(mans[:-1] + [_manifest(view, am, ab + [ab[i]])])))
         out.append((f"drop_assertion_{i}", store(mans[:-1] + [_manifest(view, am, ab[:i] + ab[i + 1:])])))
+    # a second box under an already declared label whose payload was never signed: after and before the original
+    for mi_, m_ in enumerate(view.manifests):
+        mab = [_raw(view, a) for a in m_["assertions"]]
+        for i, a in enumerate(m_["assertions"]):
+            for vi, twin in enumerate(unsigned_twins(view, a)):
+                for where in ("after", "before"):
+                    boxes = mab + [twin] if where == "after" else mab[:i] + [twin] + mab[i:]
+                    newm = _manifest(view, m_, boxes)
+                    out.append((f"twin_{where}_m{mi_}_a{i}_v{vi}", store(mans[:mi_] + [newm] + mans[mi_ + 1:])))
     nk = len(am["box"].kids) - 1
     if nk >= 2:
         out.append(("reverse_manifest_children", store(mans[:-1] + [_manifest(view, am, kid_order=list(range(nk, 0, -1)))])))
@@ -381,7 +411,8 @@ def structure_edits(view):
 
 def store_recipes():
     src = "hex:" + tiny_jpeg().hex()
-    return [{"name": "single", "shape": "single", "src": src}, {"name": "parent", "shape": "parent", "src": src}]
+    return [{"name": "single", "shape": "single", "src": src}, {"name": "parent", "shape": "parent", "src": src},
+            {"name": "thumbs", "shape": "thumbs", "src": src}]
 
 
 def corpus():
@@ -389,29 +420,59 @@ def corpus():
     return [json.loads(l) for l in open(p) if l.strip()] if os.path.exists(p) else []
 
 
-def gen_positions(view, rng, quick):
+def small_box(b):
+    """boxes whose every byte is worth a case-bit flip: description boxes and embedded-file description boxes"""
+    return b.typ in (b"jumd", b"bfdb")
+
+
+def gen_positions(view, rng, quick, budget=560):
+    """[(position, bits)]"""
     n = len(view.buf)
     if not quick:
-        return list(range(n))
-    pos = set()
-    for b in view.all_boxes():                     # every field boundary: box start, header end, box end, +-1
+        small = set()
+        for b in view.all_boxes():
+            if small_box(b):
+                small.update(range(b.start, b.end))
+        return [(q, (0, 1, 2, 3, 4, 5, 6, 7) if q in small else (0, 3, 5, 7)) for q in range(n)]
+    must, bounds = {}, set()
+    for b in view.all_boxes():
         for x in (b.start, b.start + 3, b.start + 4, b.start + 7, b.start + b.hdr, b.end - 1):
             for d in (-1, 0, 1):
                 if 0 <= x + d < n:
-                    pos.add(x + d)
-        if b.typ == b"jumd":
+                    bounds.add(x + d)
+        if b.typ == b"bfdb":                       # toggles + media type (+ file name): every byte, incl. the case bit
+            for x in range(b.start + b.hdr, b.end):
+                must[x] = (0, 5, 7)
+        elif b.typ == b"jumd":                     # type UUID, toggles, first label bytes; a few more label bytes with the case bit
             for x in range(b.start + b.hdr, min(b.end, b.start + b.hdr + 20)):
-                pos.add(x)
-    pos = set(rng.sample(sorted(pos), min(len(pos), 260)))
-    while len(pos) < 520:
-        pos.add(rng.randrange(n))
-    return sorted(pos)
+                bounds.add(x)
+            for x in rng.sample(range(b.start + b.hdr + 17, b.end), min(3, max(0, b.end - b.start - b.hdr - 17))):
+                must[x] = (0, 5, 7)
+        elif not b.kids and b.end - b.start - b.hdr > 0:   # a few positions inside every leaf box of every kind
+            for x in rng.sample(range(b.start + b.hdr, b.end), min(3, b.end - b.start - b.hdr)):
+                must.setdefault(x, (0, 5))
+    pos = dict(must)
+    for x in rng.sample(sorted(bounds), min(len(bounds), 260)):
+        pos.setdefault(x, (0, 7))
+    while len(pos) < min(budget, n):
+        pos.setdefault(rng.randrange(n), (0, 7))
+    return sorted(pos.items())
 
 
 def run(ctx):
+    _run(ctx, ctx.quick(), 560, True)
+
+
+def search(ctx):
+    """tie broken and nothing found yet: denser positions on every store, all structure edits, oracle only"""
+    n0 = len(ctx.violations)
+    _run(ctx, True, 2500, False)
+    ctx.coverage["search_evaluations"] = ctx.coverage.get("evaluations", 0)
+
+
+def _run(ctx, quick, budget, with_model):
     if not getattr(ctx, "no_build", False):
         common.build_harness()
-    quick = ctx.quick()
     recipes = store_recipes()
     prep_cases = [{"id": i, "op": "prepare", "fresh": True, "store": r} for i, r in enumerate(recipes)]
     prep = common.run_harness("c02", prep_cases, jobs=len(prep_cases))
@@ -440,8 +501,7 @@ def run(ctx):
         for name, s in stores.items():
             for car in ("jpeg", "c2pa"):
                 v = s[car]["view"]
-                for q in gen_positions(v, ctx.rng, quick):
-                    bits = (0, 7) if quick else (0, 3, 7)
+                for q, bits in gen_positions(v, ctx.rng, quick, budget):
                     for bit in bits:
                         cases.append({"op": "mut", "store": s["recipe"], "carrier": car, "m": {"k": "flip", "pos": q, "bit": bit}})
                     if not quick and v.buf[q] != 0:
@@ -479,15 +539,22 @@ def run(ctx):
                 good = True
                 same = (r["jh"] == base["jh"] and r["failure"] == base["failure"] and r["success"] == base["success"]
                         and r["informational"] == base["informational"] and r["deltas"] == base["deltas"] and r["state"] == base["state"])
-                if not same:
+                if c["m"]["k"] == "replace" and c["m"].get("edit", "").startswith("twin_"):
+                    ctx.report_violation(c, f"state {st} although the store holds a second box under a declared assertion label whose payload "
+                                            f"no hashed URI covers ({c['m']['edit']}): a changed assertion payload was accepted", mi)
+                elif not same:
                     ctx.report_violation(c, f"state {st} after a change at store offset {q} ({field} of {path}) but the report differs from the "
                                             f"untampered read (json digest {r['jh']} vs {base['jh']}; codes {r['success']} vs {base['success']})", mi)
                 elif c["m"]["k"] != "none":
                     stats["accepted_unchanged"][field] = stats["accepted_unchanged"].get(field, 0) + 1
+                    ex = stats.setdefault("accepted_examples", {}).setdefault(field, [])
+                    if len(ex) < 6 and c["m"]["k"] != "replace":
+                        b = v.innermost(q)
+                        ex.append({"store": key, "path": path, "box": b.typ.decode("latin1"), "off_in_box": q - b.start, "bit": c["m"].get("bit")})
         model_jobs.setdefault(key, []).append((c, mi_idx, field, good))
     # correspondence with the abstract model: payload-level fields
     modelled = 0
-    for key, jobs in model_jobs.items():
+    for key, jobs in (model_jobs.items() if with_model else []):
         name, car = key.split("/")
         v = stores[name][car]["view"]
         prelude, ms, tok, labels = build_model(v, key)
@@ -547,14 +614,10 @@ def run(ctx):
     distinct = len({(c["store"]["name"], c["carrier"], json.dumps(c["m"], sort_keys=True)) for c in cases if c["m"]["k"] != "none"})
     ctx.coverage.update({
         "evaluations": len(cases), "distinct_nontrivial": distinct,
-        "rule": "per store shape (single manifest; parent + active manifest with parentOf ingredient) and carrier (embedded JPEG APP11, sidecar .c2pa): "
+        "rule": "per store shape (single manifest; parent + active manifest with parentOf ingredient; the same with claim thumbnail + component ingredient with thumbnail) and carrier (embedded JPEG APP11, sidecar .c2pa): "
                 "quick = all JUMBF field boundaries (box start, type, header end, end, description boxes) sampled to 260 + seeded positions up to 520, "
-                "x flip bit 0 / bit 7; thorough = every byte x flip bit 0/3/7 and set 0; non-trivial = changes a store byte; distinct by (store, carrier, mutation)",
+                "plus every byte of embedded-file description boxes and a few positions inside every leaf box, x flip bit 0 / 7 (and the case bit 5 inside description boxes); structure edits incl. unsigned twins of every assertion box before/after the original; thorough = every byte x flip bit 0/3/5/7 (all 8 bits in description boxes) and set 0; non-trivial = changes a store byte; distinct by (store, carrier, mutation)",
         "distribution": stats, "model_evaluations": modelled,
         "stores": {k: {"jpeg_len": len(s["jpeg"]["buf"]), "c2pa_len": len(s["c2pa"]["buf"]), "manifests": len(s["jpeg"]["view"].manifests)} for k, s in stores.items()},
         "samples": [{"store": c["store"]["name"], "carrier": c["carrier"], "m": c["m"]} for c in cases[:2] + cases[len(cases) // 2: len(cases) // 2 + 2]],
     })
-
-
-def search(ctx):
-    ctx.coverage["search_evaluations"] = 0
